@@ -29,6 +29,7 @@ type Node struct {
 	Kind    Kind
 	B       bool
 	Text    string // number text, or decoded string value
+	Sub     bool   // with Wild: the string must contain Text
 	Wild    bool   // expected side only: any string matches (used where the wording of an error text is not pinned)
 	Elems   []*Node
 	Members []Member
@@ -36,6 +37,11 @@ type Node struct {
 
 func S(s string) *Node   { return &Node{Kind: Str, Text: s} }
 func AnyS() *Node        { return &Node{Kind: Str, Text: "<any string>", Wild: true} }
+
+// Containing matches (on the expected side) any string that contains sub: used
+// for error texts whose wording is zap's choice but which must describe the
+// failure.
+func Containing(sub string) *Node { return &Node{Kind: Str, Text: sub, Wild: true, Sub: true} }
 func N(t string) *Node   { return &Node{Kind: Num, Text: t} }
 func B(b bool) *Node     { return &Node{Kind: Bool, B: b} }
 func NullNode() *Node    { return &Node{Kind: Null} }
@@ -455,6 +461,9 @@ func diff(path string, a, b *Node, cmpNum func(x, y string) bool) string {
 			return fmt.Sprintf("%s: number got %s want %s", path, a.Text, b.Text)
 		}
 	case Str:
+		if b.Wild && b.Sub && !strings.Contains(a.Text, b.Text) {
+			return fmt.Sprintf("%s: string got %q, want a string containing %q", path, a.Text, b.Text)
+		}
 		if !b.Wild && a.Text != b.Text {
 			return fmt.Sprintf("%s: string got %q want %q", path, a.Text, b.Text)
 		}
